@@ -498,8 +498,33 @@ class Gen:
         tail = ":" + (self.ch(["  ", " "]) + self.comment() if self.p(0.1) else "") + "\n"
         return tail + self.block(ind + unit, depth - 1, in_def, self.ch([1, 1, 2, 3]))
 
+    def hash_text_literal(self, ind):
+        """a multi-line triple-quoted literal whose inner lines and/or closing line start (after stripping) with '#':
+        Markdown headings, shell comments, a closing line such as `# Usage\"\"\"` that carries the closing quotes"""
+        q = self.ch(['"""', "'''"])
+        pre = self.ch(["", "", "", "r", "R", "u", "b", "rb", "f", "rf"])
+        first = self.ch(["", "Title", "summary line", " "])
+        inner = []
+        for _ in range(self.r.randint(0, 3)):
+            inner.append(self.ch(["# Heading", "## Sub (x", "#!/bin/sh", "  # indented", "#", "text", "", "# a = [1,", "#\\d+" if "r" in pre.lower() else "# n",
+                                  "* item", "# 'quoted", '# "dq'])) 
+        last = self.ch(["# Usage", "#", "# end]", "  # x", "## see (y", "", "done", "# \\" + q[0] + " "])
+        body = "\n".join([first] + [ind + l for l in inner] + [ind + last])
+        if "f" in pre.lower():
+            body = body.replace("{", "").replace("}", "").replace("(", "").replace("[", "").replace("]", "")
+        body = body.replace(q, "")
+        return S(pre + q + body + q)
+
     def stmt(self, ind, depth, in_def):
         k = self.r.random()
+        if self.p(0.07):
+            lit = self.hash_text_literal(ind)
+            form = self.r.random()
+            if form < 0.4:
+                return ind + lit + "\n"
+            if form < 0.8:
+                return ind + self.join([self.name(), "="]) + " " + lit + self.ch(["", ".strip()", "  # c"]) + "\n"
+            return ind + self.join([self.name(), "(", lit, ")"]) + "\n"
         if depth <= 0 or k < 0.62:
             return self.logical(self.simple(in_def), ind, in_def=in_def)
         if k < 0.72:
@@ -568,7 +593,7 @@ class Gen:
                 return s + ":" + " " + self.logical(self.simple(True, 1), "", in_def=True)
             s += ":\n"
             if self.p(0.3):
-                docs = ['"""doc"""', "'''doc\n" + ind + unit + "more'''", '"doc"', 'r"""x\\d"""']
+                docs = [self.hash_text_literal(ind + unit), self.hash_text_literal(ind + unit), '"""doc"""', "'''doc\n" + ind + unit + "more'''", '"doc"', 'r"""x\\d"""']
                 if "blockish" in self.feat:
                     docs.append('"""\n' + ind + unit + 'def f():\n' + ind + unit + '"""')
                 s += ind + unit + S(self.ch(docs)) + "\n"
@@ -583,7 +608,7 @@ class Gen:
         if self.p(0.08):
             out.append("#!/usr/bin/env python\n")
         if self.p(0.1):
-            out.append(S(self.ch(['"""module doc"""', "'''a\nb'''", '"""\n# x\n"""'])) + "\n")
+            out.append(S(self.ch(['"""module doc"""', "'''a\nb'''", '"""\n# x\n"""', self.hash_text_literal(""), self.hash_text_literal("")])) + "\n")
         out.append(self.block("", 2, False, self.ch([1, 2, 3, 4, 5, 6])))
         s = "".join(out)
         k = self.r.random()
